@@ -153,3 +153,56 @@ def symbolic_sample_node(cls_name):
     if cls_name in out:
         return out[cls_name]
     return sample_node(cls_name)
+
+
+def _children_of_field(node, field):
+    """Array-valued entries of (possibly nested) *field* of a real node."""
+    from pytato.array import AbstractResultWithNamedArrays, Array
+    obj = node
+    for part in field.split("."):
+        obj = getattr(obj, part)
+    vals = []
+    if isinstance(obj, (Array, AbstractResultWithNamedArrays)):
+        vals = [obj]
+    elif isinstance(obj, tuple):
+        vals = [v for v in obj if isinstance(v, Array)]
+    elif hasattr(obj, "values"):
+        vals = [v for v in obj.values() if isinstance(v, Array)]
+    return vals
+
+
+def reach_only_through(mapper_name, cls_name, path):
+    """Does the real mapper, run on a real node of *cls_name*, fail to reach an
+    array held in the field named by *path*?  Returns a message or None."""
+    import re
+    import sys
+    sys.path.append("/verif/.deps")
+    from pyvc import mapperlib as ml
+    field = re.sub(r"\[[^\]]*\]$", "", path)
+    M = ml.mapper_by_name(mapper_name)
+    for node in [*sample_node(cls_name), *symbolic_sample_node(cls_name)]:
+        try:
+            kids = _children_of_field(node, field)
+        except AttributeError:
+            continue
+        if not kids:
+            continue
+        seen = []
+
+        class Rec(M):
+            def rec(self, expr, *a, **k):
+                seen.append(expr)
+                return super().rec(expr, *a, **k)
+        try:
+            m = ml._factories().get(mapper_name, lambda C: C())(Rec)
+            if mapper_name == "CombineMapper":
+                m.combine = lambda *a: None
+            m(node)
+        except Exception as e:  # noqa: BLE001
+            return (f"{mapper_name} on a real {cls_name} node raised "
+                    f"{type(e).__name__}: {e}")
+        for kid in kids:
+            if not any(s is kid for s in seen):
+                return (f"{mapper_name} run on a real {cls_name} node never "
+                        f"reaches the array held in '{field}': {kid!r}")
+    return None
